@@ -11,6 +11,7 @@ clock model of C01; no exception; nothing of body/children afterwards; the trail
 exact; under till nothing runs later than T.
 """
 from usim import time, Scope, until, instant, eternity, Flag, Tracked, interval
+from usim._primitives.context import ScopeClosed
 
 from ..engine import EQ, GE, LE, LT, GT, AND, OR, NOT, IMPLIES, MAX, MIN, INF
 from ..explore import Family
@@ -83,9 +84,23 @@ def fam_kinds(E, kinds, real=False, pmax=2):
         await at_cp(u, 0)
         log('task', 'end')
 
+    async def follow_up():
+        log('ch', 'follow-up')
+        await (time + 1)
+        log('ch', 'follow-up-2')
+
     async def child():
         log('ch', 'start')
-        await (time + d)
+        try:
+            await (time + d)
+        except GeneratorExit:
+            # closed by the trigger: clean-up code that tries to spawn into the ending scope
+            payload = follow_up()
+            try:
+                S['scope'].do(payload)
+            except ScopeClosed:
+                log('ch', 'follow-up-refused')
+            raise
         log('ch', 'end')
 
     def notification():
@@ -115,6 +130,7 @@ def fam_kinds(E, kinds, real=False, pmax=2):
         log('own', 'enter')
         try:
             async with until(notification()) as scope:
+                S['scope'] = scope
                 scope.do(child())
                 await (time + b)
                 log('own', 'body-end')
@@ -160,7 +176,9 @@ def fam_kinds(E, kinds, real=False, pmax=2):
              NAMES[kind], e, tau, T, ex[2]))
     # nothing of body / child after the exit
     for ev in log.events[log.pos(ex) + 1:]:
-        E.prove(ev[0] != 'ch' and ev[1] != 'body-end', 'no-body-or-child-code-after-exit')
+        E.prove(ev[0] != 'ch' and ev[1] != 'body-end', 'no-body-or-child-code-after-exit',
+                ('%r %r at %r', ev[0], ev[1], ev[2]))
+    E.prove(not log.has('ch', 'follow-up'), 'spawn-from-cleanup-of-closed-child-refused')
     completed = log.has('own', 'body-end') and log.has('ch', 'end')
     if tau is NEVER or LT(T, tau):
         E.prove(completed, 'completes-when-trigger-is-later')
